@@ -187,6 +187,8 @@ def check(idx: Index, rep: Report, tier: str) -> str:
         if init is None:
             continue
         norm_calls = [k for k in calls_in(init.node) if call_attr(k) == "normalized_value"]
+        # rounding a float payload to the precision of its type is a canonicalisation too: T.unpack(T.pack(...))
+        norm_calls += [k for k in calls_in(init.node) if call_attr(k) == "unpack" and k.args and isinstance(k.args[0], ast.Call) and call_attr(k.args[0]) == "pack" and isinstance(k.func, ast.Attribute) and isinstance(k.args[0].func, ast.Attribute) and unparse(k.func.value) == unparse(k.args[0].func.value)]
         if not norm_calls:
             continue
         n_canon += 1
@@ -199,7 +201,9 @@ def check(idx: Index, rep: Report, tier: str) -> str:
         from ..astutil import guard_facts
 
         enclosing_tests = [w.test for w in walk_local(init.node) if isinstance(w, ast.If) and any(x is norm_calls[0] for b in w.body + w.orelse for x in ast.walk(b))]
-        excl = [(unparse(t), pol) for t, pol in guard_facts(init.node, norm_calls[0]) if "isinstance" in unparse(t) and any(x is t for e in enclosing_tests for x in ast.walk(e))]
+        recv_ = unparse(norm_calls[0].func.value) if isinstance(norm_calls[0].func, ast.Attribute) else ""
+        # only a test on the *type* whose method canonicalises excludes a type; a test on the form of the payload does not
+        excl = [(unparse(t), pol) for t, pol in guard_facts(init.node, norm_calls[0]) if re.match(rf"isinstance\({re.escape(recv_)}, ", unparse(t)) and any(x is t for e in enclosing_tests for x in ast.walk(e))]
 
         def edge_ok(n: int, m: int, lab) -> bool:
             a = cfg.nodes[n].ast
